@@ -90,6 +90,31 @@ theorem C14_cg_zero_rhs (A : V →ₗ[𝕜] V) (x0 : V) (tol atol : ℝ) (maxite
   have h := (cg_spec_noprecond (𝕜 := 𝕜) A (0 : V) x0 tol atol maxiter (by simp [hatol])).2
   simpa [hatol] using h
 
+/-- **Non-zero starting point that already solves the system** (`A x0 = b`, any `x0`, any preconditioner, any tolerances, any
+    `maxiter`): the initial residual is `b − A x0 = 0`, the loop body is never entered, `cg` returns `x0` itself with `num_iter = 0`.
+    (The stopping reference is `‖b‖`, not `‖r₀‖`: with the latter the test `0 > (tol·0)²` would also be false, but for `r₀ ≠ 0` the two
+    rules differ — `C14_cg_exit` states the rule with `‖b‖` for every `x0`.) -/
+theorem C14_cg_start_at_solution (A : V →ₗ[𝕜] V) (M : V → V) (b x0 : V) (h : A x0 = b) (tol atol : ℝ) (maxiter : Nat) :
+    (cg (rcOps 𝕜 V) A M b x0 tol atol maxiter).1 = x0 ∧ (cg (rcOps 𝕜 V) A M b x0 tol atol maxiter).2.numIter = 0 := by
+  have hnum : (cgInit (rcOps 𝕜 V) (⇑A) M b x0).num = 0 := by
+    simp [cgInit, rcOps, h]
+  have hcond : cgCond (rcOps 𝕜 V) maxiter (cgTolSq tol atol ‖b‖) (cgInit (rcOps 𝕜 V) (⇑A) M b x0) = false := by
+    have ht := cgTolSq_nonneg tol atol ‖b‖
+    have hg : (rcOps 𝕜 V).gtReal (0 : 𝕜) (cgTolSq tol atol ‖b‖) = false := by
+      simp [rcOps, not_lt.2 ht]
+    unfold cgCond
+    rw [hnum, hg, Bool.and_false]
+  have hloop : cgLoop (rcOps 𝕜 V) (⇑A) M maxiter (cgTolSq tol atol ‖b‖) maxiter (cgInit (rcOps 𝕜 V) (⇑A) M b x0)
+      = cgInit (rcOps 𝕜 V) (⇑A) M b x0 := by
+    cases maxiter with
+    | zero => rfl
+    | succ k => rw [cgLoop, hcond]; rfl
+  constructor
+  · show (cgLoop (rcOps 𝕜 V) (⇑A) M maxiter (cgTolSq tol atol ‖b‖) maxiter (cgInit (rcOps 𝕜 V) (⇑A) M b x0)).x = x0
+    rw [hloop]; rfl
+  · show (cgLoop (rcOps 𝕜 V) (⇑A) M maxiter (cgTolSq tol atol ‖b‖) maxiter (cgInit (rcOps 𝕜 V) (⇑A) M b x0)).ii = 0
+    rw [hloop]; rfl
+
 /-- **No division by zero.**  For Hermitian positive-definite `A` and Hermitian `M`, as long as the loop
     condition holds (with a non-negative threshold) both denominators of the next step — `⟪p, A p⟫` for
     `alpha` and `num` for `beta` — are non-zero. -/
